@@ -267,7 +267,7 @@ def run(ctx):
     ctx.assumptions.append("each DictProxy operation (contains / getitem / setitem) is atomic; nobody deletes from the shared dictionary")
     u = ctx.unit("D:search(memory)", "D",
                  "search() with memory=True of rotating optimizers on small spaces (many revisits), bare and (score, dict) "
-                 "results, 1-3 calls; the model driver replays the proposals and must reproduce rows, objective call log and "
+                 "results, 1-3 calls, a few spaces with an infinite value in a dimension (monitor only); the model driver replays the proposals and must reproduce rows, objective call log and "
                  "memory_dict; each spec is also run with memory=False under the same seed; "
                  "non-trivial = a position is revisited; distinct by spec")
     ctx.monitor_rule = ("pair memory=True/False: identical search_data and best; per call: objective calls == distinct parameter "
@@ -283,6 +283,16 @@ def run(ctx):
                                   ndims=rng.choice([1, 2]))
         if name in ("GeneticAlgorithmOptimizer", "DifferentialEvolutionOptimizer"):
             spec["cfg"] = {k: v for k, v in (spec["cfg"] or {}).items() if k != "population"}
+        if i < 4 or rng.random() < 0.06:
+            # a dimension holding an infinite value (e.g. max_leaf_nodes: [8, 32, 128, inf]): a legal, distinct element with its own memory key
+            # (the model's values are finite integers: these specs go through the monitor only)
+            n0 = list(spec["space"].keys())[rng.randrange(len(spec["space"]))]
+            vals = [float(x) for x in spec["space"][n0]]
+            if len(vals) >= 2:
+                vals[rng.choice([0, len(vals) - 1])] = rng.choice([math.inf, math.inf, -math.inf])
+                spec["space"] = dict(spec["space"], **{n0: np.array(vals)})
+                spec["monitor_only"] = True
+                spec["calls"][0]["n_iter"] = max(spec["calls"][0]["n_iter"], 12)
         r_on = dunit.run_case(spec)
         spec_off = dict(spec, calls=[dict(c, memory=False) for c in spec["calls"]])
         r_off = dunit.run_case(spec_off)
